@@ -17,6 +17,7 @@ import (
 	"go/parser"
 	"go/token"
 	"go/types"
+	"hash/crc32"
 	"io"
 	"os"
 	"os/exec"
@@ -278,7 +279,7 @@ func runOp(f []string) string {
 			swapMu.Lock()
 			defer swapMu.Unlock()
 			var src io.Reader = rd
-			if len(f[3])%3 == 0 { // every third script is delivered through a reader of an uncomparable type
+			if crc32.ChecksumIEEE([]byte(strings.Join(f, " ")))%3 == 0 { // a third of the calls use a reader of an uncomparable type
 				src = valueReader{r: rd, pad: []byte{1}}
 			}
 			old := bip39.VerifSwapRandSource(src)
@@ -368,6 +369,35 @@ func runOp(f []string) string {
 	case "I":
 		v, _ := strconv.ParseInt(f[1], 10, 64)
 		return hx([]byte(strconv.FormatInt(v, 10)))
+	case "MP": // MP <lang> <count> <seed> <11 known words, hex>: membership probe by volume
+		// count pseudo-random tokens (letters, 3..9 bytes) are each put in front of 11 known list words; a token that
+		// is not reported as the unknown word at position 0 is returned (at most 8) for the driver to examine
+		l := lang(f[1])
+		cnt, seed := atoi(f[2]), uint64(atoi(f[3]))
+		tail := " " + string(unhex(f[4]))
+		var hits []string
+		x := seed*2862933555777941757 + 3037000493
+		buf := make([]byte, 0, 16)
+		for i := 0; i < cnt && len(hits) < 8; i++ {
+			x ^= x << 13
+			x ^= x >> 7
+			x ^= x << 17
+			n := 3 + int(x%7)
+			buf = buf[:0]
+			y := x
+			for k := 0; k < n; k++ {
+				buf = append(buf, byte('a'+y%26))
+				y /= 26
+			}
+			err := bip39.CheckMnemonic(string(buf)+tail, l)
+			if err == nil || errors.Is(err, bip39.ErrChecksumIncorrect) || errors.Is(err, bip39.ErrWordLen) {
+				hits = append(hits, hx(buf))
+			}
+		}
+		if len(hits) == 0 {
+			return "ok"
+		}
+		return "hit " + strings.Join(hits, ",")
 	case "GP": // GP <path>: parse a generated Go file with go/parser; the string list of its single var declaration
 		return goParseList(f[1])
 	// ---- default randomness source (C07)
